@@ -155,6 +155,8 @@ class Fn:
             return self.ex(inner[0])
         if k == "IntegerLiteral":
             return ("(%s : Int)" % n["value"], set(), False)
+        if k == "CharacterLiteral":
+            return ("(%d : Int)" % int(n["value"]), set(), False)
         if k == "CXXBoolLiteralExpr":
             return ("true" if n["value"] else "false", set(), True)
         if k == "DeclRefExpr":
@@ -231,7 +233,7 @@ class Fn:
                 argl = " ".join(p[0] for p in parts)
                 self.ub.append(("(%s_ub %s)" % (ln, argl), fvs))
                 return ("(%s %s)" % (ln, argl), fvs, False)
-            raise Unsupported("CallExpr " + nm)
+            raise Unsupported("call to untranslated function " + nm)
         if k == "CXXMemberCallExpr":
             callee = inner[0]
             if callee["kind"] != "MemberExpr":
@@ -510,7 +512,7 @@ BOOL_FNS = {"year::is_leap", "year::ok", "month::ok", "day::ok", "weekday::ok"}
 
 PRELUDE = """/-
 GENERATED by /verif/gen/translate.py from %(repo)s/include/etl/_chrono — do not edit.
-Regenerated on every run of the C11 check; the theorems in TetlProofs/C11 are re-checked against it.
+Regenerated on every run of the C11 check; the theorems of the owning property are re-checked against it.
 -/
 import Tetl.CSem
 set_option linter.unusedVariables false
@@ -561,39 +563,68 @@ JOBS = [
 ]
 
 
-def translate(repo, out_path):
-    tu = "#include <etl/chrono.hpp>\n"
+def translate(repo, out_path, jobs=None, tu="#include <etl/chrono.hpp>\n", namespace="Tetl.C11.Gen",
+              what="include/etl/_chrono", bool_fns=None):
+    """Translate `jobs` (default: the C11 calendar kernels) into `out_path`.  Jobs whose callees are not translated
+    yet are retried after the others (dependency order is found by iteration)."""
+    jobs = list(JOBS if jobs is None else jobs)
+    if bool_fns:
+        BOOL_FNS.update(bool_fns)
     reg = Registry()
-    chunks = [PRELUDE % {"repo": repo}]
-    errors = []
+    prelude = PRELUDE % {"repo": repo}
+    prelude = prelude.replace("include/etl/_chrono", what).replace("Tetl.C11.Gen", namespace)
+    chunks = {}
+    errors = {}
     cache = {}
-    for lean, filt, kind, pred, selfcls, keys in JOBS:
-        if filt not in cache:
-            cache[filt] = ast_of(repo, tu, filt)
-        docs = cache[filt]
-        cands = [d for d in docs if d.get("kind") == kind and pred(d) and any(c.get("kind") in ("CompoundStmt", "CXXCtorInitializer") for c in d.get("inner", []))]
-        if not cands:
-            errors.append("%s: declaration not found (filter %s)" % (lean, filt))
-            chunks.append("-- NOT FOUND: %s" % lean)
-            continue
-        try:
-            chunks.append(Fn(lean, cands[0], reg, selfcls).run())
-            for k in keys:
-                reg.add(k, lean)
-        except Unsupported as e:
-            errors.append("%s: unsupported: %s" % (lean, e))
-            chunks.append("-- UNSUPPORTED in %s: %s" % (lean, e))
-    chunks.append("end Tetl.C11.Gen\n")
-    text = "\n\n".join(chunks)
+    pending = jobs
+    order = []
+    for _round in range(6):
+        nxt = []
+        for job in pending:
+            lean, filt, kind, pred, selfcls, keys = job
+            if filt not in cache:
+                cache[filt] = ast_of(repo, tu, filt)
+            cands = [d for d in cache[filt] if d.get("kind") == kind and pred(d) and d.get("name", lean) is not None
+                     and any(c.get("kind") in ("CompoundStmt", "CXXCtorInitializer") for c in d.get("inner", []))]
+            if not cands:
+                errors[lean] = "%s: declaration not found (filter %s)" % (lean, filt)
+                continue
+            try:
+                chunks[lean] = Fn(lean, cands[0], reg, selfcls).run()
+                order.append(lean)
+                errors.pop(lean, None)
+                for k in keys:
+                    reg.add(k, lean)
+            except Unsupported as e:
+                errors[lean] = "%s: unsupported: %s" % (lean, e)
+                if "untranslated" in str(e):
+                    nxt.append(job)
+        if not nxt or len(nxt) == len(pending):
+            break
+        pending = nxt
+    parts = [prelude] + [chunks[l] for l in order] + ["-- FAILED: %s" % e for e in errors.values()] + ["end %s\n" % namespace]
+    text = "\n\n".join(parts)
     old = open(out_path).read() if os.path.exists(out_path) else None
     if old != text:
         open(out_path, "w").write(text)
-    return {"file": out_path, "changed": old != text, "errors": errors, "functions": [j[0] for j in JOBS],
+    return {"file": out_path, "changed": old != text, "errors": list(errors.values()), "functions": [j[0] for j in jobs],
             "translator": VERSION}
+
+
+def exact_name(name):
+    return lambda d: d.get("name") == name
+
+
+CCTYPE = ["isalnum", "isalpha", "isblank", "iscntrl", "isdigit", "isgraph", "islower", "isprint", "ispunct", "isspace",
+          "isupper", "isxdigit", "tolower", "toupper"]
+CCTYPE_JOBS = [(f, "etl::" + f, "FunctionDecl", exact_name(f), None, ["fn:" + f]) for f in CCTYPE]
 
 
 if __name__ == "__main__":
     repo = sys.argv[1] if len(sys.argv) > 1 else "/repo"
     out = sys.argv[2] if len(sys.argv) > 2 else "/dev/stdout"
-    info = translate(repo, out)
+    if len(sys.argv) > 3 and sys.argv[3] == "cctype":
+        info = translate(repo, out, CCTYPE_JOBS, "#include <etl/cctype.hpp>\n", "Tetl.C18.Gen", "include/etl/_cctype")
+    else:
+        info = translate(repo, out)
     print(json.dumps(info, indent=1), file=sys.stderr)
